@@ -14,6 +14,7 @@ RULE = (
     "+ with FmtStr/str on either side; * n for n in 0..4; sep.join(items) for generated lists of str/FmtStr. Oracle: the same "
     "Python operation on the operands' cell lists (plain str -> unformatted cells), len == number of cells, .s == str "
     "operation on .s. Non-trivial: bounds on different runs, any negative bound, or an operand with an empty run."
+    ' Operands also carry a history (derived from observed parents, caches and the divides index filled) and come in large sizes (for long strings the bound grid is all run boundaries +-1, the ends and a spread of interior points); plain-str operands may contain a bare ESC or U+009B; repeat counts up to 100, joins of up to 40 items.'
 )
 ASSUMPTIONS = [
     "for integer indices where str raises IndexError the only demand is that no non-empty result is returned",
